@@ -146,6 +146,9 @@ def runtime_facts(facts):
         rt = eval(r["type"], ns)  # noqa: S307 - expression restricted to Name/Attribute by read_source
         r["inst"] = [c for c, py in BTYPES if isinstance(types_[py](), rt)]
     facts["public"] = {c: [n for n in dir(types_[py]) if not n.startswith("_")] for c, py in BTYPES}
+    # operator / protocol methods: reachable from a template as stored method-wrapper references only
+    facts["dunder"] = {c: [n for n in dir(types_[py]) if n.startswith("__") and n.endswith("__") and callable(getattr(types_[py], n, None))]
+                       for c, py in BTYPES}
     # the table object the running module really uses must be the one read from the source text
     live = [(t, sorted(s)) for t, s in sb._mutable_spec]
     src = [(eval(r["type"], ns), sorted(set(r["attrs"]))) for r in facts["rows"]]  # noqa: S307
@@ -177,8 +180,12 @@ def spec_to_coq(facts):
     for r in facts["rows"]:
         rows.append(f"  mkRow {coq_string(r['type'])} [{'; '.join(r['inst'])}] {coq_list(r['attrs'])}")
     pub = "\n".join(f"  | {c} => {coq_list(facts['public'][c])}" for c, _ in BTYPES)
+    dun = "\n".join(f"  | {c} => {coq_list(facts.get('dunder', {}).get(c, []))}" for c, _ in BTYPES)
     return ("Definition gen_spec : list row := [\n" + ";\n".join(rows) + "\n].\n\n"
-            "Definition gen_public (T : btype) : list string :=\n  match T with\n" + pub + "\n  end.")
+            "Definition gen_public (T : btype) : list string :=\n  match T with\n" + pub + "\n  end.\n\n"
+            "(* every callable dunder name of the type in the running interpreter *)\n"
+            "Definition gen_dunder (T : btype) : list string :=\n  match T with\n" + dun + "\n  end.\n\n"
+            "Definition gen_names (T : btype) : list string := gen_public T ++ gen_dunder T.")
 
 
 COMPILER_FUNCS = ("CodeGenerator.visit_Call", "CodeGenerator.visit_Getattr", "CodeGenerator.visit_Getitem")
